@@ -289,6 +289,7 @@ func first(vs []uint64) uint64 {
 
 func main() {
 	r := ev.Start("C01", "exploration")
+	ev.BigHeap(512 << 20)
 	workers := runtime.NumCPU()
 	bnd := codec.BoundaryBits()
 	tags := codec.BoundaryTags(4096)
